@@ -39,6 +39,8 @@ Definition entries : list (string * (sexp -> option sexp)) := [
   ("C10.step", Files.run_genverify);
   ("C01.universe", Universe.run_universe);
   ("C06.universe", Universe.run_universe);
+  ("C11.wellformed", Universe.run_wellformed);
+  ("C06.wellformed", Universe.run_wellformed);
   ("C06.lookups", Universe.run_lookups);
   ("C06.prelookups", Universe.run_prelookups);
   ("C20.preds", Universe.run_preds);
